@@ -142,6 +142,11 @@ def lossy_ops(t, out=None):
         tb = tybits(t[3])
         if tb is not None and bits_of(t) > tb:
             out.append("%s in %s can wrap: %s" % (h, t[3], flow.show(t)))
+    if h == "call":
+        # the arguments of a call build the value's source (readers, adapters), they are not arithmetic on the
+        # compared value - except for value-transparent conversions
+        if not (isinstance(t[1], str) and t[1].endswith(("::from", "::into", "::try_from", "::try_into", "::unwrap", "::unwrap_or"))):
+            return out
     for x in t[1:]:
         if isinstance(x, tuple):
             lossy_ops(x, out)
@@ -172,8 +177,26 @@ class Row:
         self.start = start
 
 
-def option_some_edge(body, tm, field):
-    """Target of the Some edge of the switch on discr(<...>.field)."""
+def option_some_edge(body, tm, field, before=None):
+    """Target of the Some edge of the switch on discr(<...>.field); with several such switches the one whose Some
+    edge dominates block `before` (the comparison) and is closest to it."""
+    if before is not None:
+        c = flow.cfg(body)
+        cands = []
+        for blk in body.blocks:
+            if blk.cleanup or blk.term.k != "switch":
+                continue
+            t = tm.of_operand(blk.term.discr)
+            if t[0] == "discr" and isinstance(t[1], tuple) and t[1][0] == "field" and t[1][1] == field:
+                for v, tgt in blk.term.targets:
+                    if v == 1 and (c.dominates(tgt, before) or tgt == before):
+                        cands.append(tgt)
+        if cands:
+            best = cands[0]
+            for x in cands[1:]:
+                if c.dominates(best, x):
+                    best = x
+            return best
     for blk in body.blocks:
         if blk.cleanup or blk.term.k != "switch":
             continue
@@ -277,7 +300,7 @@ def rule_table(facts):
             # must-pass from the start point
             start = None
             if row.start and row.start[0] == "some":
-                start = option_some_edge(b, tm, row.start[1])
+                start = option_some_edge(b, tm, row.start[1], bb)
             if start is None:
                 start = first_read_block(t)
             if start is None:
